@@ -23,6 +23,8 @@ pub struct C04 {
     /// value sweep: one site per (target, enum definer): (case index, field path, undeclared values 0..=0xFF / 0..=0x1FF + specials)
     vsites: Vec<(usize, u64, String, Vec<u64>)>,
     v_total: u64,
+    /// per case: frames chosen greedily so that every enum-typed field path and every branch token the model reaches occurs
+    covers: std::sync::Mutex<std::collections::HashMap<usize, std::sync::Arc<Vec<Frame>>>>,
 }
 
 fn width(ty: &str) -> Option<usize> {
@@ -125,7 +127,7 @@ impl C04 {
             }
         }
         let v_total = vsites.iter().map(|x| x.3.len() as u64).sum();
-        C04 { ctx, cases, opsets, vsites, v_total }
+        C04 { ctx, cases, opsets, vsites, v_total, covers: std::sync::Mutex::new(std::collections::HashMap::new()) }
     }
     fn o_sites(&self) -> u64 {
         self.opsets.iter().map(|s| if s.0.is_some() { 256 } else { 0x600 }).sum()
@@ -151,6 +153,50 @@ fn number_matches(detail: &str, injected: u64, len: usize) -> bool {
     false
 }
 
+impl C04 {
+    /// frames of one case that together contain every enum-typed field path (array indices normalised) and every
+    /// branch / enumerator token reachable within 30 model-peer candidates; at most 6 frames, cached per process
+    fn cover(&self, ci: usize, master: u64) -> std::sync::Arc<Vec<Frame>> {
+        if let Some(v) = self.covers.lock().unwrap().get(&ci) {
+            return v.clone();
+        }
+        let case = &self.cases[ci];
+        let mut kept: Vec<Frame> = Vec::new();
+        let mut seen: std::collections::BTreeSet<String> = std::collections::BTreeSet::new();
+        for k in 0..30u64 {
+            if kept.len() >= 6 {
+                break;
+            }
+            let mut wl = Rng::new(crate::rng::run_seed(master.wrapping_add(k << 24), &case.label(), 0xC04C));
+            let knobs = match k % 4 {
+                1 => Knobs { take_optional: Some(true), ..Knobs::default() },
+                2 => Knobs { max_arr: 5, ..Knobs::default() },
+                _ => Knobs::default(),
+            };
+            let Some(f) = encode_case(&self.ctx, case, &mut wl, &knobs) else { continue };
+            if f.plain.len() > 8000 {
+                continue;
+            }
+            let mut tokens: Vec<String> = f.shape.split(',').map(|t| t.to_string()).collect();
+            for x in f.fields.iter().filter(|x| matches!(x.kind, FKind::Enum { .. })) {
+                let norm: String = x.path.chars().filter(|c| !c.is_ascii_digit()).collect();
+                tokens.push(format!("E:{}", norm));
+            }
+            let adds = tokens.iter().any(|t| !seen.contains(t));
+            if !kept.is_empty() && !adds {
+                continue;
+            }
+            for t in tokens {
+                seen.insert(t);
+            }
+            kept.push(f);
+        }
+        let v = std::sync::Arc::new(kept);
+        self.covers.lock().unwrap().insert(ci, v.clone());
+        v
+    }
+}
+
 impl Check for C04 {
     fn id(&self) -> &'static str {
         "C04"
@@ -159,7 +205,7 @@ impl Check for C04 {
         "fault_enumeration"
     }
     fn rule(&self) -> String {
-        format!("Fault sites are enumerated from the model peer's field maps. E: every enum-typed field (incl. upcast ones and ones nested in structs, arrays, conditional branches and compressed regions) of a canonical frame of every message gets, at its full wire width and in place, undeclared values (neighbours of declared values, the maximum of the width, and for upcast fields aliases of declared values modulo 2^8 and 2^16); the reader must fail with an enum error reporting exactly that number ({} slots per message). L: every message the model computes as constant-sized gets every body length 0..size+8 except the right one (bytes removed / zero bytes appended, header consistent); the reader must fail. O: every opcode value 0..0x600 not defined for the direction and expansion (and every undefined first byte for the 12 login opcode enums), plus aliases of the expected message's opcode above 16 bits for client messages, in front of short bodies; the reader must fail with an opcode error reporting that number. Every site is driven through the opcode-enum reader and the typed expect helper, blocking/tokio/async-std rotated per site (thorough: more shapes), over a scheduled SimPipe. Non-trivial: the altered frame was derived from a frame the library accepts unaltered; distinct = distinct event-log hashes.", ESLOTS)
+        format!("Fault sites are enumerated from the model peer's field maps. E: every enum-typed field (incl. upcast ones and ones nested in structs, arrays, conditional branches and compressed regions) of a canonical frame of every message gets, at its full wire width and in place, undeclared values (neighbours of declared values, the maximum of the width, and for upcast fields aliases of declared values modulo 2^8 and 2^16); the reader must fail with an enum error reporting exactly that number ({} slots per message and shape; the shapes of a message are chosen greedily out of 30 model-peer candidates so that every enum-typed field path and every branch token the model reaches occurs in one of them). L: every message the model computes as constant-sized gets every body length 0..size+8 except the right one (bytes removed / zero bytes appended, header consistent); the reader must fail. O: every opcode value 0..0x600 not defined for the direction and expansion (and every undefined first byte for the 12 login opcode enums), plus aliases of the expected message's opcode above 16 bits for client messages, in front of short bodies; the reader must fail with an opcode error reporting that number. Every site is driven through the opcode-enum reader and the typed expect helper, blocking/tokio/async-std rotated per site (thorough: more shapes), over a scheduled SimPipe. Non-trivial: the altered frame was derived from a frame the library accepts unaltered; distinct = distinct event-log hashes.", ESLOTS)
     }
     fn assumptions(&self) -> Vec<String> {
         vec![
@@ -175,8 +221,8 @@ impl Check for C04 {
     }
     fn plan(&self, tier: Tier) -> (u64, u64) {
         let shapes = match tier {
-            Tier::Quick => 1,
-            Tier::Thorough => 4,
+            Tier::Quick => 3,
+            Tier::Thorough => 8,
         };
         (self.cases.len() as u64 * ESLOTS * shapes + self.o_sites() + self.v_total, match tier {
             Tier::Quick => env_u64("VERIF_C04_RUNS", 20_000),
@@ -307,16 +353,28 @@ impl Check for C04 {
             }
         }
         // ---------------- E / L sites
-        let (case, slot, shape) = if i < e_total {
+        let (case, slot, shape, case_idx) = if i < e_total {
             let ci = i / ESLOTS;
             let n = self.cases.len() as u64;
-            (self.cases[(ci % n) as usize].clone(), Some(i % ESLOTS), ci / n)
+            (self.cases[(ci % n) as usize].clone(), Some(i % ESLOTS), ci / n, Some((ci % n) as usize))
         } else {
-            (cf.pick(&self.cases).clone(), None, seed)
+            (cf.pick(&self.cases).clone(), None, seed, None)
         };
-        let mut wl = Rng::new(crate::rng::run_seed(master.wrapping_add(shape), &case.label(), 0xC04));
-        let Some(f) = encode_case(&self.ctx, &case, &mut wl, &Knobs::default()) else {
-            return json!({"label": case.label(), "case": case_json(&case), "skip": "unmodelled"});
+        // enumerated shapes come from the greedy cover of the case (every enum field path, every branch token); beyond
+        // the cover, and in the sampled part, plain draws
+        let from_cover = case_idx.and_then(|ci| {
+            let cov = self.cover(ci, master);
+            cov.get(shape as usize).cloned()
+        });
+        let f = match from_cover {
+            Some(f) => f,
+            None => {
+                let mut wl = Rng::new(crate::rng::run_seed(master.wrapping_add(shape), &case.label(), 0xC04));
+                let Some(f) = encode_case(&self.ctx, &case, &mut wl, &Knobs::default()) else {
+                    return json!({"label": case.label(), "case": case_json(&case), "skip": "unmodelled"});
+                };
+                f
+            }
         };
         let orig = intact_stream(&case, &f);
         let enum_fields: Vec<(usize, &FieldInfo)> = f.fields.iter().enumerate().filter(|(_, x)| matches!(x.kind, FKind::Enum { .. })).collect();
@@ -327,7 +385,9 @@ impl Check for C04 {
         let e_pick = match slot {
             Some(s) => {
                 let fi = (s / 3) as usize;
-                if fi < enum_fields.len() && s < 36 {
+                if fi < enum_fields.len().min(12) && s < 36 {
+                    // frames with more than 12 enum fields (arrays of structs): the window of 12 rotates with the slot parity of the shape
+                    let fi = if enum_fields.len() > 12 { (fi + (shape as usize) * 12) % enum_fields.len() } else { fi };
                     Some((fi, (s % 3) as usize))
                 } else {
                     None
